@@ -1,45 +1,51 @@
 ------------------------------ MODULE BloomMC ------------------------------
-(* Layer P on its own: the most permissive machine whose every answer obeys the law of
-   Bloom.tla (the answers of Exists are chosen freely among those LinOK allows), with
-   up to Conc overlapping calls.  TLC checks that the law is satisfiable in every
-   reachable state (no call is ever left without a legal answer: Progress), that the
-   recorded answers stay mutually consistent (AnswersOK) and the bookkeeping invariants. *)
-EXTENDS Bloom
+(* Layer P on its own.
 
-CONSTANTS Elems, MaxCalls, MaxEnv, Conc
+   Model checking (MSpec): the most permissive machine whose every answer obeys the law of
+   Bloom.tla (the answers of Exists are chosen freely among those LinOK allows), with up
+   to Conc overlapping calls, store faults and clock advances.  TLC checks that the law is
+   satisfiable in every reachable state (no call is ever left without a legal answer:
+   Progress), that the recorded answers stay mutually consistent (AnswersOK), the
+   bookkeeping invariants, and the action properties below (errors change nothing, only
+   Del / Expire / the clock shrink a set, adding never touches the expiry).
 
-VARIABLES nc, ne
-mvars == <<flt, mem, ttl, memo, dirty, down, calls, nc, ne>>
+   Generation (GSpec, Emit = TRUE): the same machine restricted to one call at a time with
+   the least answer the law allows, a history variable hidden by the VIEW: one shortest
+   operation history per distinct TRANSITION (state, last ViewOps operations, state) is
+   printed ("TRACE <json>") and replayed on real Filters over miniredis.            *)
+EXTENDS Bloom, Json
 
-Filters == <<[key |-> 1, g |-> 3], [key |-> 1, g |-> 3], [key |-> 1, g |-> 2], [key |-> 2, g |-> 3]>>
+CONSTANTS Elems, Filters, NKeys, SecsVals, BadOn, MaxCalls, MaxEnv, Conc, Emit, MaxOps, ViewOps
 
-Rec(op, f, x, s, bad) == [op |-> op, f |-> f, x |-> x, s |-> s, bad |-> bad, raw |-> bad,
-                          st |-> "pend", r |-> FALSE, err |-> FALSE]
+VARIABLES nc, ne, hist, prev
+mvars == <<flt, mem, ttl, memo, dirty, down, calls, taint, nc, ne, hist, prev>>
 
-MInit == PInit(Filters, 2) /\ nc = 0 /\ ne = 0
+MInit == PInit(Filters, NKeys) /\ nc = 0 /\ ne = 0 /\ hist = <<>> /\ prev = 0
 
+Recs == RecsOf(Elems, Filters, SecsVals, BadOn)
+
+\* ---------------------------------------------------------------- model checking
 MStart ==
   /\ nc < MaxCalls /\ Cardinality(DOMAIN calls) < Conc
-  /\ \E f \in DOMAIN Filters :
-       \/ \E x \in Elems, op \in {"add", "exists"}, bad \in BOOLEAN :
-            (bad => x = CHOOSE y \in Elems : TRUE) /\ PStart(nc + 1, Rec(op, f, x, 0, bad))
-       \/ PStart(nc + 1, Rec("del", f, 0, 0, FALSE))
-       \/ \E s \in {0, 1} : PStart(nc + 1, Rec("expire", f, 0, s, FALSE))
-  /\ nc' = nc + 1 /\ UNCHANGED ne
+  /\ LET c == CHOOSE i \in 1..Conc : i \notin DOMAIN calls /\ \A j \in 1..Conc : j \notin DOMAIN calls => i <= j
+     IN \E rec \in Recs : PStart(c, rec)
+  /\ nc' = nc + 1 /\ UNCHANGED <<ne, hist, prev>>
 
 MLin ==
   /\ \E c \in DOMAIN calls, r, err, applied \in BOOLEAN :
        /\ (calls[c].op # "exists" => ~r)
        /\ LinOK(c, r, err, applied)
        /\ PLin(c, r, err, applied)
-  /\ UNCHANGED <<nc, ne>>
+  /\ UNCHANGED <<nc, ne, hist, prev>>
 
 MEnd == /\ \E c \in DOMAIN calls : PEnd(c, calls[c].r, calls[c].err)
-        /\ UNCHANGED <<nc, ne>>
+        /\ UNCHANGED <<nc, ne, hist, prev>>
+
+AdvChoices == {d \in {500} \cup UNION {{ttl[k] - 1, ttl[k], ttl[k] + 1} : k \in DOMAIN ttl} : d >= 1}
 
 MEnv ==
-  /\ ne < MaxEnv /\ ne' = ne + 1 /\ UNCHANGED nc
-  /\ \/ PAdvance(1000)
+  /\ ne < MaxEnv /\ ne' = ne + 1 /\ UNCHANGED <<nc, hist, prev>>
+  /\ \/ \E d \in AdvChoices : PAdvance(d)
      \/ \E m \in {"up", "err", "flaky"} : PFault(m)
 
 MNext == MStart \/ MLin \/ MEnd \/ MEnv
@@ -50,4 +56,45 @@ Progress == \A c \in DOMAIN calls : calls[c].st = "pend" =>
               \E r, err, applied \in BOOLEAN : LinOK(c, r, err, applied)
 TypeOK == /\ \A k \in DOMAIN mem : ttl[k] >= 0
           /\ \A c \in DOMAIN calls : calls[c].st \in {"pend", "lin"}
+          /\ \A e \in memo : e.S \subseteq (Elems \X {3, 2})
+
+\* action properties (over the named actions)
+ErrorsChangeNothing == [][down => (mem' = mem /\ ttl' = ttl) \/ (\E d \in AdvChoices : PAdvance(d))]_mvars
+Shrinks(k) == ~(mem[k] \subseteq mem'[k])
+OnlyClearShrinks ==
+  [][\A k \in DOMAIN mem : Shrinks(k) =>
+        /\ mem'[k] = {}                                      \* a set is never partly forgotten
+        /\ \/ \E d \in AdvChoices : PAdvance(d)
+           \/ \E c \in DOMAIN calls : calls[c].op \in {"del", "expire"} /\ KeyOf(calls[c].f) = k]_mvars
+AddKeepsTtl == [][(\E c \in DOMAIN calls : /\ calls[c].op = "add" /\ calls[c].st = "pend"
+                                              /\ c \in DOMAIN calls' /\ calls'[c].st = "lin")
+                    => ttl' = ttl]_mvars
+
+\* ---------------------------------------------------------------- generation (sequential)
+Log(r) == hist' = Append(hist, r)
+StateView == <<mem, ttl, down, dirty>>
+
+GCall ==
+  \E rec \in Recs :
+    LET err == down \/ rec.bad
+        r   == rec.op = "exists" /\ ~err /\ <<rec.x, GeoOf(rec.f)>> \in mem[KeyOf(rec.f)]
+    IN /\ LinOKr(rec, r, err, ~err)
+       /\ PCall(rec, r, err, ~err)
+       /\ Log([op |-> rec.op, f |-> rec.f, x |-> rec.x, s |-> rec.s, bad |-> rec.bad])
+GAdvance == \E d \in AdvChoices : PAdvance(d) /\ Log([op |-> "advance", f |-> 0, x |-> 0, s |-> d, bad |-> FALSE])
+GFault ==
+  /\ PFault(IF down THEN "up" ELSE "err")
+  /\ Log([op |-> "fault", f |-> 0, x |-> 0, s |-> IF down THEN 0 ELSE 1, bad |-> FALSE])
+
+GNext ==
+  /\ Len(hist) < MaxOps
+  /\ prev' = StateView
+  /\ UNCHANGED <<nc, ne>>
+  /\ (GCall \/ GAdvance \/ GFault)
+GSpec == MInit /\ [][GNext]_mvars
+
+LastN(h, n) == IF Len(h) <= n THEN h ELSE SubSeq(h, Len(h) - n + 1, Len(h))
+View == <<StateView, LastN(hist, ViewOps), prev>>
+MView == <<flt, mem, ttl, memo, dirty, down, calls, taint, nc, ne>>
+PrintHist == (Emit /\ Len(hist) > 0) => PrintT("TRACE " \o ToJson(hist))
 =============================================================================
